@@ -150,7 +150,11 @@ struct Stats(World);
 impl FactoryStatsLayer for Stats {
     fn job_completed(&self, _f: &str, options: &JobOptions) {
         // the job id travels in the (never reached) TTL: see `mk_job`
-        let id = options.ttl().map(|t| (t.as_millis() as u64).saturating_sub(TTL_BASE_MS) as u32).unwrap_or(u32::MAX);
+        // (short TTLs carry it in their microseconds)
+        let id = options
+            .ttl()
+            .map(|t| if t.as_millis() < 1000 { (t.as_micros() as u64).saturating_sub(100_000) as u32 } else { (t.as_millis() as u64).saturating_sub(TTL_BASE_MS) as u32 })
+            .unwrap_or(u32::MAX);
         self.0.log(Ev::Completed { id });
     }
     fn job_discarded(&self, _f: &str) {
@@ -507,6 +511,7 @@ pub async fn run(cfg: Cfg) -> Run {
                 "K1" => Event::Kill(1),
                 "P0" => Event::DieIn(0, How::Panic),
                 "R1" => Event::Resize(1),
+                "R2" => Event::Resize(2),
                 "R3" => Event::Resize(3),
                 "DR" => Event::Drain,
                 "L0" => Event::SetLimit(0),
@@ -531,7 +536,7 @@ pub async fn run(cfg: Cfg) -> Run {
                 // the (unreachable) TTL carries the job id into the stats callbacks; with `ttl` the
                 // first key gets a really short one
                 let short = cfg.ttl && key == 0;
-                let ttl = if short { Duration::from_millis(100) } else { Duration::from_millis(TTL_BASE_MS + id as u64) };
+                let ttl = if short { Duration::from_micros(100_000 + id as u64) } else { Duration::from_millis(TTL_BASE_MS + id as u64) };
                 let job = Job { key, msg: JobMsg { id }, options: JobOptions::new(Some(ttl)), accepted: Some(tx.into()) };
                 let lc = vsched::stamp();
                 let r = f.cast(FactoryMessage::Dispatch(job));
